@@ -185,10 +185,11 @@ def oracle_network(case, rec):
         g["edges"] else None
     rec.label("directed" if directed else "undirected")
     _nontrivial(rec, A, perm)
-    net = Network(adjacency=A, directed=directed, node_weights=w,
+    net = Network(adjacency=G.represent_adj(A), directed=directed,
+                  node_weights=G.represent_weights(w),
                   silence_level=3)
-    net2 = Network(adjacency=A[p][:, p], directed=directed,
-                   node_weights=w[p], silence_level=3)
+    net2 = Network(adjacency=G.represent_adj(A[p][:, p]), directed=directed,
+                   node_weights=G.represent_weights(w[p]), silence_level=3)
     if W is not None:
         net.set_link_attribute("la", W)
         net2.set_link_attribute("la", W[p][:, p])
